@@ -221,10 +221,11 @@ def handle (st : DState) (line : String) : DState × String :=
       | some p, some fuel =>
         (match p.find fn with
          | some f =>
-           if Wasm.intFunc f then
+           if Wasm.intFunc f || Wasm.uintFunc f then
              match args.mapM (fun (a : String) => a.toInt?) with
              | some xs =>
-               (match Wasm.runR p fuel f 0 { args := xs.map Val.int } [] with
+               (match (if Wasm.intFunc f then Wasm.runR p fuel f 0 { args := xs.map Val.int } []
+                       else Wasm.runRU p fuel f 0 { args := xs.map Val.int } []) with
                 | .done (.int v) _ _ => "done " ++ toString v
                 | .done _ _ _ => "done-other"
                 | .fail e => "fail " ++ (Codec.encErr e).toStr)
